@@ -21,9 +21,9 @@ RULE = (
     "derived from the base listing are identical before and after. Non-trivial: >= 2 distinct edit kinds actually applied and the listing has >= 1 annotated branch or comment; "
     "distinct by hash of (base, edited)."
 )
-ASSUMPTIONS = ["edits keep the instruction text (mnemonic and operands) of every instruction line byte-identical", "CRLF and removal of the byte column are not presentation edits of the statement"]
+ASSUMPTIONS = ["edits keep the instruction text (mnemonic and operands) of every instruction line byte-identical", "CRLF is not a presentation edit of the statement; removing the raw-byte column is (objdump --no-show-raw-insn)"]
 EDITS = ["label-add", "label-remove", "label-rename", "annot-remove", "annot-alter", "comment-remove", "comment-alter", "comment-add", "blank-add", "blank-remove",
-         "section-add", "section-remove", "section-rename", "strip-all-blank", "strip-all-labels", "strip-all-sections", "format-remove", "format-alter", "format-add", "indent", "bytes-content", "bytes-length", "cont-add", "cont-remove"]
+         "section-add", "section-remove", "section-rename", "strip-all-blank", "strip-all-labels", "strip-all-sections", "format-remove", "format-alter", "format-add", "indent", "bytes-content", "bytes-length", "cont-add", "cont-remove", "bytes-column-remove"]
 FLOORS = {f"edit={e}": 0.02 for e in EDITS}
 FLOORS.update({"kinds>=2": 0.4, "edit=format-add": 0.004})
 NAMES = ["see file format notes", "main", "_start", "f@plt", ".text", "foo+0x10", "_ZN3foo3barEv", "foo(int)", "operator new(unsigned long)", "x", "L1", "data_16", "sym.with.dots", "null check:", "0x2000 <main>:", "note: see below", "Disassembly of section .text:"]
@@ -154,6 +154,21 @@ def apply_edits(lines, edits):
             hx = e["hex"] * 2
             bs = " ".join(hx[2 * q: 2 * q + 2] for q in range(nb)) + " "
             lines[i] = fmt_inst(m.group(1), m.group(2), bs, m.group(5))
+        elif k == "bytes-column-remove":
+            # the raw-byte column removed: from the whole listing as `objdump --no-show-raw-insn` prints it (continuation lines
+            # go with it), or from one instruction line only
+            whole = e["n"] % 2 == 0
+            # without the column a text made of hex pairs only (the synthetic vocabulary has an operand-less `fadd`) would be
+            # indistinguishable from raw bytes: such lines keep their column
+            ok = [i for i in inst if not re.match(r"^(?:[0-9a-f]{2} ?)+$", INST.match(lines[i]).group(5))]
+            targets = ok if whole else [i for i in [pick(inst, w)] if i in ok]
+            if not targets:
+                continue
+            for i in targets:
+                m = INST.match(lines[i])
+                lines[i] = f"{m.group(1)}{m.group(2)}:\t{m.group(5)}"
+            if whole and len(ok) == len(inst):
+                lines = [ln for ln in lines if not re.match(r"^\s*[0-9a-f]+:\t(?:[0-9a-f]{2} )+\s*$", ln)]
         elif k == "cont-add":
             i = pick(inst, w)
             m = INST.match(lines[i])
